@@ -582,6 +582,10 @@ int nat44_egress(struct __sk_buff *skb) {
 	if ((void *)(ip + 1) > data_end)
 		return TC_ACT_OK;
 
+	/* Malformed IPv4 header (with ihl < 5 the L4 header would overlap the IP header) */
+	if (ip->version != 4 || ip->ihl < 5)
+		return TC_ACT_OK;
+
 	/* Only NAT private source IPs */
 	if (!is_private_ip(ip->saddr))
 		return TC_ACT_OK;
@@ -819,6 +823,10 @@ int nat44_ingress(struct __sk_buff *skb) {
 	/* Parse IP */
 	struct iphdr *ip = data + sizeof(*eth);
 	if ((void *)(ip + 1) > data_end)
+		return TC_ACT_OK;
+
+	/* Malformed IPv4 header (with ihl < 5 the L4 header would overlap the IP header) */
+	if (ip->version != 4 || ip->ihl < 5)
 		return TC_ACT_OK;
 
 	/* Build reverse lookup key */
